@@ -89,8 +89,19 @@ ssize_t vf_pwrite(int fd, const void *buf, size_t n, off_t off)
 
 /* ---- mmap: exact-size heap copy ---- */
 long vf_mmap_live = 0, vf_mmap_total = 0;
+/* files above 1 GiB (sparse multi-gigabyte tables) are really mapped: an exact-size heap copy is not affordable */
+#define VF_BIGMAP ((size_t)1 << 30)
+static void *vf_bigmaps[8];
 void *vf_mmap(void *addr, size_t len, int prot, int flags, int fd, off_t off)
 {
+	if (len > VF_BIGMAP) {
+		void *m = mmap(addr, len, prot, flags, fd, off);
+		if (m != MAP_FAILED) {
+			for (int i = 0; i < 8; i++) if (!vf_bigmaps[i]) { vf_bigmaps[i] = m; break; }
+			__atomic_add_fetch(&vf_mmap_live, 1, __ATOMIC_RELAXED); __atomic_add_fetch(&vf_mmap_total, 1, __ATOMIC_RELAXED);
+		}
+		return m;
+	}
 	(void)addr; (void)prot; (void)flags;
 	uint8_t *p = malloc(len ? len : 1);
 	if (!p) return MAP_FAILED;
@@ -103,7 +114,11 @@ void *vf_mmap(void *addr, size_t len, int prot, int flags, int fd, off_t off)
 	__atomic_add_fetch(&vf_mmap_live, 1, __ATOMIC_RELAXED); __atomic_add_fetch(&vf_mmap_total, 1, __ATOMIC_RELAXED);
 	return p;
 }
-int vf_munmap(void *p, size_t len) { (void)len; free(p); __atomic_sub_fetch(&vf_mmap_live, 1, __ATOMIC_RELAXED); return 0; }
+int vf_munmap(void *p, size_t len)
+{
+	for (int i = 0; i < 8; i++) if (vf_bigmaps[i] == p && p) { vf_bigmaps[i] = NULL; __atomic_sub_fetch(&vf_mmap_live, 1, __ATOMIC_RELAXED); return munmap(p, len); }
+	free(p); __atomic_sub_fetch(&vf_mmap_live, 1, __ATOMIC_RELAXED); return 0;
+}
 
 /* ---- mkstemp: record templates ---- */
 char vf_mkstemp_templates[VF_MAXTMPL][256]; int vf_mkstemp_n = 0;
